@@ -316,6 +316,18 @@ func (s *Sched) Sleep(d time.Duration) bool {
 	return true
 }
 
+// CurName returns the name of the running task ("" outside a run).
+//
+//go:norace
+func (s *Sched) CurName() string {
+	s.lock()
+	defer s.unlock()
+	if s.cur == nil {
+		return ""
+	}
+	return s.cur.name
+}
+
 // Now returns the simulated time.
 //
 //go:norace
